@@ -1020,7 +1020,7 @@ func (in *Interp) globalPtr(s *State, g *ssa.Global) *Ptr {
 			}
 		}
 	}
-	if g.Pkg != nil && !s.inited[g.Pkg] && !in.isBlackhole(g.Pkg.Pkg.Path()) && !noInit[g.Pkg.Pkg.Path()] && g.Pkg.Func("init") != nil {
+	if g.Pkg != nil && !s.inited[g.Pkg] && !in.isBlackhole(g.Pkg.Pkg.Path()) && !(noInit[g.Pkg.Pkg.Path()] && !(g.Pkg.Pkg.Path() == "context" && in.cfg.Models["real-context"])) && g.Pkg.Func("init") != nil {
 		if g.Name() != "init$guard" {
 			panic(needInit{g.Pkg})
 		}
